@@ -133,4 +133,18 @@ CHECKS["C03"] = {
     "engine": "tlc+vh",
 }
 
+CHECKS["C11"] = {
+    "category": "model_checking",
+    "text": "spec/Token.tla defines the token stream of a byte string (a token is written as the Encoder call that produces it, so encoding a "
+            "token sequence needs no second definition) and data-model equality of tokens. TLC checks on every byte string of token groups and "
+            "every token sequence up to a bound: at most one token per byte, well-formed sequences tokenise completely, re-encoding yields the same "
+            "items with shortest heads and is the identity on preferred input, encode-then-tokenise returns value-equal tokens. Every case is "
+            "replayed on Tokenizer and Encoder::tokens; generated deep item sequences, mutations, random bytes, half patterns and random token "
+            "sequences are validated by TLC.",
+    "design_ref": "DESIGN.md section 6, C11",
+    "note": "Trusted: TLC, the RFC 8949 transcription; signalling-NaN halves are compared as NaN only.",
+    "technique": "TLA+ spec of the token stream (Token) over the Encoder/CborWire specs + TLC identities + replay + trace validation",
+    "engine": "tlc+vh",
+}
+
 NOT_YET = "check not built yet in this round (planned in DESIGN.md section 10); not claimed until it exists"
